@@ -254,19 +254,25 @@ class Resolved(object):
                intersect); we only keep the outermost one written and the
                generators never stack two different constraints of one kind.
     """
-    __slots__ = ('base', 'mod', 'tags', 'rng', 'size', 'alpha', 'chain', 'alpha_ext')
+    __slots__ = ('base', 'mod', 'tags', 'rng', 'size', 'alpha', 'chain', 'alpha_ext', 'rngs', 'sizes')
 
 
 def resolve(spec, ty, modname):
     r = Resolved()
     r.tags = []
     r.rng = r.size = r.alpha = r.alpha_ext = None
+    r.rngs, r.sizes = [], []     # every value-range / SIZE constraint along the chain, outermost first (serial
+    #                              application, X.680 50: a value must satisfy all of them); rng / size = outermost
     r.chain = []
     t, mod = ty, modname
     hops = 0
     while True:
         if t.tag is not None:
             r.tags.append((t.tag, mod))
+        if t.rng is not None:
+            r.rngs.append(t.rng)
+        if t.size is not None:
+            r.sizes.append(t.size)
         if r.rng is None and t.rng is not None:
             r.rng = t.rng
         if r.size is None and t.size is not None:
